@@ -272,6 +272,26 @@ class Row:
     def get(self, atom, default=None):
         return self.cmap.get(atom, default)
 
+    def long(self, text, depth=4):
+        """effect results are named `callee#k`; expand them to `callee#k(args)` (nested up to `depth`)"""
+        text = str(text)
+        for _ in range(depth):
+            changed = False
+            for i, e in enumerate(self.effects):
+                tok = f"{e[0]}#{i + 1}"
+                j = text.find(tok)
+                while j >= 0:
+                    end = j + len(tok)
+                    if end >= len(text) or (text[end] != '(' and not text[end].isdigit()):
+                        ins = '(' + ','.join(e[1]) + ')'
+                        text = text[:end] + ins + text[end:]
+                        changed = True
+                        end += len(ins)
+                    j = text.find(tok, end)
+            if not changed:
+                break
+        return text
+
     def effect_names(self):
         return [e[0] for e in self.effects]
 
@@ -1017,8 +1037,8 @@ class FDI:
             return self.ret(st, fr, t, Unknown(f"{name} on unknown"))
         if is_effect:
             k = len(st.effects)
-            return self.ret(st, fr, t, Sym(f"{name}#{k}({','.join(self.describe(st, a) for a in args)})", t['dest_ty'],
-                                           ('eff', name, k, tuple(self.xof(st, a) for a in args))))
+            # effect results are unique per path through their index: the arguments stay in the effect entry / in .x
+            return self.ret(st, fr, t, Sym(f"{name}#{k}", t['dest_ty'], ('eff', name, k, tuple(self.xof(st, a) for a in args))))
         return self.ret(st, fr, t, Sym(f"{name}({','.join(self.describe(st, a) for a in args)})", t['dest_ty'],
                                        ('call', name, tuple(self.xof(st, a) for a in args))))
 
